@@ -89,6 +89,7 @@ class Ctx:
         self.seed = seed
         self.replay_in = replay
         self.t0 = time.time()
+        self.lean_s = 0.0   # wall time spent in lake / leanc / audits (excluded from the work budgets)
         self.rng = random.Random("%s:%d" % (pid, seed))
         self.obligations = []  # (name, ok, detail)
         self.evaluations = 0
@@ -211,7 +212,20 @@ class Ctx:
                     hits.append((m, i, line.strip()))
         return hits
 
+    @property
+    def t_work(self):
+        """Start of the check shifted by the time spent building / auditing Lean: wall-clock budgets of the input
+        streams are measured from here, so a slow `lake build` (loaded machine, cold cache) does not eat them."""
+        return self.t0 + self.lean_s
+
     def proof_phase(self, module, theorems, extra_modules=(), refutations=()):
+        t = time.time()
+        try:
+            return self._proof_phase(module, theorems, extra_modules, refutations)
+        finally:
+            self.lean_s += time.time() - t
+
+    def _proof_phase(self, module, theorems, extra_modules=(), refutations=()):
         """Build the property module, audit every listed theorem, grep for forbidden constructs.
 
         Each theorem is one obligation. `refutations` are theorems that prove the *negation* of a property
@@ -286,7 +300,11 @@ class Ctx:
         return ok
 
     def driver(self, root_module):
-        exe, log = self.build_exe(root_module)
+        t = time.time()
+        try:
+            exe, log = self.build_exe(root_module)
+        finally:
+            self.lean_s += time.time() - t
         if exe is None:
             self.obligations.append(("driver %s builds" % root_module, False, log[-500:]))
             self.broken.append(("driver build " + root_module, "\n".join(log.strip().split("\n")[-30:])))
@@ -521,6 +539,14 @@ def main(argv):
         if rc is not None:
             return rc
         print("INFRA-ERROR %s: harness exception" % pid)
+        return 2
+    except BaseException as e:
+        # e.g. a time-limit exception that escaped from a place that does not expect it: trouble of the machinery (exit 2),
+        # never a silent exit 1
+        if isinstance(e, (SystemExit, KeyboardInterrupt)):
+            raise
+        traceback.print_exc()
+        print("INFRA-ERROR %s: harness exception (%s)" % (pid, type(e).__name__))
         return 2
 
 
